@@ -6,17 +6,17 @@ CONSTANTS
   PlaceholderTypedAsCookie = FALSE
   CapReply = TRUE
   Day = 2
-  Ticks <- GTicks
-  Horizon = 60
-  MaxEx = 40
-  ProbeNs <- GProbes
-  ProbeUids <- GUids
-  MaxOld = 3
+  Ticks <- GTicksRot
+  Horizon = 40
+  MaxEx = 14
+  ProbeNs <- GProbesRot
+  ProbeUids <- GUidsRot
+  MaxOld = 2
   Exhaustive = FALSE
-  Biases <- BiasAll
-  TickPct = 12
-  ProbePct = 8
-  StalePct = 30
+  Biases <- BiasLow
+  TickPct = 35
+  ProbePct = 30
+  StalePct = 5
   ExInj <- InjX
 INVARIANTS Emit
 PROPERTIES StepOfSpec
